@@ -404,7 +404,10 @@ def validate_trace(module, trace_path, constants, name, shards=8, timeout=1800, 
     tlcs = []
     for (k, d, tp, cnt), res in results:
         tlcs.append(res)
-        rej = [(int(m.group(1)), m.group(2) or "") for m in re.finditer(r'<<"REJECT", (\d+)(?:, "([^"]*)")?>>', res.output)]
+        # one string per rejection (TLC wraps long tuples over several lines, a string stays on one)
+        rej = [(int(m.group(1)), m.group(2) or "") for m in re.finditer(r'^"REJECT\|(\d+)\|([^"]*)"$', res.output, re.M)]
+        if "REJECT" in res.output and not rej:
+            raise ToolError("trace validation %s shard %d printed a rejection that could not be read" % (name, k))
         inc = re.search(r'<<"INCOMPLETE", (\d+)>>', res.output)
         if res.timeout:
             raise ToolError("trace validation %s shard %d timed out" % (name, k))
